@@ -49,6 +49,28 @@ def scenarios(ctx: Ctx):
         sched = ['random', ctx.seed * 100003 + i] if i % 3 else ['pct', ctx.seed * 100003 + i, rng.choice([2, 3, 5])]
         scs.append({'topo': topo, 'progs': progs, 'clients': clients, 'sched': sched, 'lines': i % 5 in (0, 1),
                     'crash': None, 'probe': False})
+    # finished but never claimed: a client submits, the compilation FINISHES (the client lets the system settle, or polls the
+    # status), the result is never requested, and the client cancels / disconnects - next to an undisturbed client.  Whatever
+    # the server still holds of that compilation afterwards (its stored result included) is residue.  Own generator, so that
+    # the scenarios above stay what they were for a given seed.
+    rng2 = random.Random(ctx.seed * 7919 + 1212)
+    m = 60 if ctx.quick else 1500
+    dets = [t for t in topos if t[0] == 'detached']
+    for j in range(m):
+        topo = dets[j % len(dets)]
+        progs = rtcheck.LIB[['T', 'A', 'B', 'L'][j % 4]] if j % 3 else rtcheck.gen_prog(rng2, depth=rng2.choice([1, 2]), leftover=rng2.random() < 0.3)
+        victim = rng2.choice([
+            [['submit', 'V', 'root'], ['settle'], ['close']],
+            [['submit', 'V', 'root'], ['status', 'V'], ['settle'], ['status', 'V'], ['close']],
+            [['submit', 'V', 'root'], ['submit', 'V2', 'root'], ['result', 'V2'], ['settle'], ['close']],
+            [['submit', 'V', 'root'], ['settle'], ['cancel', 'V'], ['submit', 'V2', 'root'], ['result', 'V2']],
+            [['submit', 'V', 'root'], ['settle'], ['status', 'V']],        # ... and the harness closes the connection at the end
+            [['submit', 'V', 'root'], ['result', 'V'], ['submit', 'V2', 'root'], ['settle'], ['close']],
+        ])
+        clients = [[['submit', 'H0', 'root'], ['result', 'H0']], victim] if j % 2 else [victim]
+        sched = ['random', ctx.seed * 100003 + n + j] if j % 3 else ['pct', ctx.seed * 100003 + n + j, 3]
+        scs.append({'topo': topo, 'progs': progs, 'clients': clients, 'sched': sched, 'lines': False, 'crash': None, 'probe': j % 4 == 0,
+                    'family': 'unclaimed'})
     return scs
 
 
@@ -59,6 +81,10 @@ def run(ctx: Ctx) -> Outcome:
         out = rtcheck.replay_outcome('C12', ctx, also=('C07',))
         return out
     scs = scenarios(ctx)
+    # client scripts DERIVED FROM TLC behaviours of ServerClients.tla (exhaustively checked in C13) in which a client disconnects
+    # while it owns a finished compilation it never asked the result of
+    tlc_scs = rtmodel.simulated_scripts(ctx, 1500 if ctx.quick else 12000, only=('finished-unclaimed-then-gone',), cap=40 if ctx.quick else 600)
+    scs = scs + tlc_scs
     # WorkerFine.tla, cancel configurations (cancel of a future with its result in flight, _handle_cancel racing the main thread,
     # the client cancelling the compilation): TLC runs in the background, replays into the real Worker afterwards
     fine = rtfine.start('C12', ctx)
@@ -68,6 +94,7 @@ def run(ctx: Ctx) -> Outcome:
     out = rtcheck.validate('C12', scs, ctx, extra_traces=list(guided) + fine_traces, also=('C07',), extra_cov=model_cov, keep_items=True)
     rtfine.annotate_residue(out)       # key field for known findings: was the left-over mailbox created after its owner's cancellation?
     out.notes += notes + fine_notes
+    out.coverage['l2_behaviours_as_client_scripts'] = len(tlc_scs)
     out.assumptions = ['cancelled work is computed by the specification from the observed cancel / completion / disconnect events',
                        'the idle snapshot is taken when no thread of any node can make a step and every client call has returned']
     return out
